@@ -270,7 +270,8 @@ Fixpoint m_others_same (i : nat) (before after : list mview) : bool :=
 
 Inductive m_hop :=
 | SMNew (kvs : list pair) | SMNewFrom (i : nat) (s : bool)
-| SMOp (i : nat) (s : bool) (op : m_op) | SMUpdFrom (i : nat) (s : bool) (j : nat) (t : bool).
+| SMOp (i : nat) (s : bool) (op : m_op) | SMUpdFrom (i : nat) (s : bool) (j : nat) (t : bool)
+| SMEq (i : nat) (s : bool) (j : nat) (t : bool).
 
 Definition m_hop_ok (before : list mview) (hop : m_hop) (res : sres) (after : list mview) : bool :=
   match hop with
@@ -304,6 +305,13 @@ Definition m_hop_ok (before : list mview) (hop : m_hop) (res : sres) (after : li
           m_others_same i before after && m2m_healthy a && sres_is res (SOk SNone) &&
           same_set (m_rel s a) (m_rel t src ++ m_rel s b)
       | _, _, _ => false
+      end
+  | SMEq i s j t =>          (* == : true exactly when both hold the same pairs; nothing changes *)
+      match nth_error before i, nth_error before j with
+      | Some a, Some b =>
+          list_eqb mview_eqb before after &&
+          sres_is res (SOk (SBool (same_set (m_rel s a) (m_rel t b))))
+      | _, _ => false
       end
   end.
 
